@@ -121,8 +121,11 @@ TraceStep ==
        ELSE IF sub = 0
          THEN /\ st' = StartState(e) /\ acc' = StartClauses(e) /\ sub' = 1 /\ l' = l
        ELSE IF sub <= Horizon(e)
-         THEN /\ IF \E c \in acc : c \in {"harness-not-kkt", "harness-not-api-fixed"}
+         THEN /\ IF \E c \in acc : c \in {"harness-not-kkt", "harness-not-api-fixed", "harness-too-fine"}
                    THEN st' = st /\ acc' = acc         \* ill-formed event: do not iterate a state that moves
+                   ELSE IF e.kind = "fixed" /\ ~SqSafe(st)
+                   THEN st' = st /\ acc' = acc \cup {"harness-too-fine"}   \* internal variables drift off the
+                                                                          \* 32-bit range: not startable either
                    ELSE /\ st' = RefStep(e.inst, st)
                         /\ acc' = acc \cup IterClauses(e, sub, st')
               /\ sub' = sub + 1 /\ l' = l
